@@ -238,7 +238,9 @@ class Engine:
     """One instance per explored path."""
 
     FEAS_TIMEOUT_MS = 700
-    OBL_TIMEOUT_MS = 20000
+    OBL_TIMEOUT_MS = 40000
+    CVC5_TIMEOUT_S = 20
+    FIRST_TIMEOUT_MS = 4000
 
     def __init__(self, decisions, stats, inputs_decl=None):
         self.solver = z3.Solver()
@@ -389,7 +391,24 @@ class Engine:
         self.solver.push()
         self.solver.add(z3.Not(c))
         t_obl = time.time()
-        r = self._check(self.OBL_TIMEOUT_MS)
+        # staged: z3 briefly, then cvc5 (decides most of the nonlinear obligations z3 gives up on at once), then z3
+        # with the full budget
+        r = self._check(min(self.FIRST_TIMEOUT_MS, self.OBL_TIMEOUT_MS))
+        staged_cvc5 = None
+        if r == z3.unknown and self.OBL_TIMEOUT_MS > self.FIRST_TIMEOUT_MS:
+            try:
+                smt2_first = self.solver.to_smt2()
+            except Exception:
+                smt2_first = None
+            if smt2_first is not None:
+                from . import backends
+                t_c = time.time()
+                staged_cvc5 = backends.cvc5_check(smt2_first, timeout_s=self.CVC5_TIMEOUT_S)
+                t_c = time.time() - t_c
+                self.stats["cvc5_s"] = self.stats.get("cvc5_s", 0.0) + t_c
+                self.stats["cvc5_max_s"] = max(self.stats.get("cvc5_max_s", 0.0), t_c)
+            if staged_cvc5 != "unsat":
+                r = self._check(self.OBL_TIMEOUT_MS)
         t_obl = time.time() - t_obl
         if t_obl > self.stats.get("max_obl_s", 0.0):
             self.stats["max_obl_s"] = t_obl
@@ -402,15 +421,8 @@ class Engine:
             model_inputs = self.model_inputs(self.solver.model())
         elif r == z3.unknown:
             status = "unknown"
-            try:
-                smt2 = self.solver.to_smt2()
-            except Exception:
-                smt2 = None
-            if smt2 is not None:
-                from . import backends
-                r2 = backends.cvc5_check(smt2, timeout_s=30)
-                if r2 == "unsat":
-                    status, backend = "proved", "cvc5"
+            if staged_cvc5 == "unsat":
+                status, backend = "proved", "cvc5"
         self.solver.pop()
         if status == "refuted":
             status, model_inputs = self.match_known_finding(name, c, status, model_inputs)
@@ -418,11 +430,10 @@ class Engine:
         if status == "proved" or status == "unknown":
             self.assume(c)
         else:
-            # continue on the sub-path where the obligation holds, if there is one
+            # continue on the sub-path where the obligation holds, if there is one (else unconstrained: later
+            # obligations of the path are still evaluated - they may be tagged for other properties)
             if self.feasible(c):
                 self.assume(c)
-            else:
-                raise Infeasible()
         return status == "proved"
 
     known_findings = ()
